@@ -338,7 +338,7 @@ fn alias_pool(lang: Lang) -> Vec<(&'static str, &'static str)> {
 
 fn alias_input_alphabet(lang: Lang) -> &'static [&'static str] {
     match lang {
-        // the first 10 are the quick tier's input alphabet
+        // the first 8 are the quick tier's input alphabet
         Lang::Revset => &["a", "b", "x", "f(", "g(", "p:", ")", ",", "|", "all()", "~", "\"s\"", " "],
         Lang::Fileset => &["a", "b", "x", "f(", "g(", "p:", ")", ",", "|", "all()", "~", "\"s\"", "file:"],
         Lang::Template => &["a", "b", "x", "f(", "g(", "p:", ")", ",", "++", ".m(", "-", "\"s\"", "|x|"],
@@ -1191,16 +1191,13 @@ fn run_shard(sh: &Shared, key: &str, spec: Value, cpu_cap_s: u64) {
             let lang = spec["lang"].as_str().unwrap_or("?");
             let kind = crash_kind(&rerun.exit).or(crash_kind(&run.exit)).unwrap_or("crash");
             let family = spec["family"].as_str().or(spec["group"].as_str()).unwrap_or("?");
-            let production = if aliases.as_array().is_some_and(|a| !a.is_empty()) {
-                "alias-expansion"
-            } else {
-                family
-            };
             match (last, crash_kind(&rerun.exit)) {
+                // Enumerated inputs are short: their signature never coincides with that of a
+                // nesting-ladder production.
                 (Some(text), Some(_)) => sh.ctx.violation(
-                    &format!("C36/{lang}/{production}/{kind}"),
+                    &format!("C36/{lang}/short-input/{family}/{kind}"),
                     format!(
-                        "{lang}: the child process died ({:?}) while parsing {text:?} with aliases {aliases}",
+                        "{lang}: the child process died ({:?}) while parsing the short input {text:?} with aliases {aliases}",
                         rerun.exit
                     ),
                     json!({"lang": lang, "text": text, "aliases": aliases, "family": family}),
@@ -1367,7 +1364,7 @@ fn replay(ctx: &Ctx, case: &Value, cpu_cap_s: u64) {
     }
     spec["case_cap_s"] = json!(cpu_cap_s);
     let r = run_single(ctx.scratch(), spec, cpu_cap_s);
-    let label = case["production"].as_str().or(case["family"].as_str()).unwrap_or("input");
+    let label = case["family"].as_str().unwrap_or("input");
     for (_depth, entry, kind, detail) in &r.done {
         if kind == "panic" {
             let msg: String = serde_json::from_str(detail).unwrap_or_else(|_| detail.clone());
@@ -1382,15 +1379,12 @@ fn replay(ctx: &Ctx, case: &Value, cpu_cap_s: u64) {
         Exit::Capped(why) => println!("replay: capped ({why}) — no verdict"),
         e => {
             let kind = crash_kind(e).unwrap();
-            let production = if let Some(p) = case["production"].as_str() {
-                p
-            } else if case["aliases"].as_array().is_some_and(|a| !a.is_empty()) {
-                "alias-expansion"
-            } else {
-                label
+            let signature = match case["production"].as_str() {
+                Some(p) => format!("C36/{lang}/{p}/{kind}"),
+                None => format!("C36/{lang}/short-input/{label}/{kind}"),
             };
             ctx.violation(
-                &format!("C36/{lang}/{production}/{kind}"),
+                &signature,
                 format!("replay: the process died ({e:?}) in entry {:?}", r.in_progress_entry),
                 case.clone(),
             );
@@ -1405,7 +1399,7 @@ fn main() {
     }
     let ctx = Ctx::from_args("C36", Level::Exploration);
     vcommon::silence_panics();
-    let ladder_cap_s: u64 = ctx.pick(3, 30);
+    let ladder_cap_s: u64 = ctx.pick(2, 30);
     let bisect = ctx.thorough();
     let shard_cap_s: u64 = ctx.pick(120, 1500);
     if let Some((_sig, case)) = ctx.replay_case() {
@@ -1415,14 +1409,20 @@ fn main() {
     }
     let token_len: usize = ctx.pick(3, 5);
     let token_core_len: usize = ctx.pick(4, 6);
-    let alias_input_limit: usize = ctx.pick(10, 13);
+    let alias_input_limit: usize = ctx.pick(8, 13);
+    let char_limit: usize = ctx.pick(12, CHAR_ALPHABET.len());
     let pattern_value_limit: usize = ctx.pick(8, FILESET_VALUE_CHARS.len());
     let char_len: usize = ctx.pick(4, 5);
     let decl_len: usize = ctx.pick(4, 5);
     let alias_input_len: usize = ctx.pick(3, 4);
     let alias_sets_per_child: usize = ctx.pick(8, 2);
-    let max_rung: usize = ctx.pick(4096, 65536);
-    let rungs: Vec<usize> = RUNGS.iter().copied().filter(|&r| r <= max_rung).collect();
+    // quick: a coarser ladder to 3072 (the rungs 10..14 are where the exponential revset
+    // productions burn their whole cap); thorough: all rungs to 65536
+    let rungs: Vec<usize> = if ctx.quick() {
+        vec![1, 2, 3, 4, 5, 6, 7, 8, 16, 32, 64, 128, 256, 512, 1024, 2048, 3072]
+    } else {
+        RUNGS.to_vec()
+    };
 
     let sh = Shared {
         ctx: &ctx,
@@ -1496,7 +1496,7 @@ fn main() {
             // longer strings over the core part of the alphabet only
             push_enum(&mut jobs, lang, "tokens", TOKEN_CORE, token_len + 1, token_core_len, format!("{}/tokens", lang.name()));
         }
-        push_enum(&mut jobs, lang, "chars", CHAR_ALPHABET.len(), 0, char_len, format!("{}/chars", lang.name()));
+        push_enum(&mut jobs, lang, "chars", char_limit, 0, char_len, format!("{}/chars", lang.name()));
         push_enum(&mut jobs, lang, "decl", DECL_ALPHABET.len(), 0, decl_len, format!("{}/decl", lang.name()));
         let pool = alias_pool(lang);
         let sets: Vec<Aliases> = alias_sets(lang)
@@ -1590,7 +1590,7 @@ fn main() {
         distinct_nontrivial: sh.nontrivial.load(Ordering::Relaxed),
         rule: format!(
             "per language (revset, fileset, template): every string of <= {token_len} tokens over the language's token \
-             alphabet (sizes {:?}) and every string of <= {token_core_len} tokens over its first {TOKEN_CORE} tokens; every string of <= {char_len} characters over {CHAR_ALPHABET:?}; every alias \
+             alphabet (sizes {:?}) and every string of <= {token_core_len} tokens over its first {TOKEN_CORE} tokens; every string of <= {char_len} characters over the first {char_limit} of {CHAR_ALPHABET:?}; every alias \
              declaration of <= {decl_len} tokens over {DECL_ALPHABET:?}; every set of <= 2 alias rules from a pool of 17 x \
              every input of <= {alias_input_len} tokens over the first {alias_input_limit} input tokens; every string literal of <= 3 escape atoms; every builtin revset \
              function x <= 2 arguments from {} argument forms; every fileset pattern kind x every value of <= 3 \
